@@ -59,6 +59,11 @@ var c10BaseQueries = []string{
 	"SELECT id, SUBSTR(s, 1, 1) AS c, -a AS neg, (1, 2) AS tup FROM t",
 	"SELECT 1 + 1 AS two FROM dual",
 	"SELECT id, n FROM t ORDER BY id DESC",
+	"SELECT id, SETVAR('k', id), GETVAR('k') AS g FROM t",
+	"SELECT id, GETVAR('k') AS g FROM t WHERE GETVAR('k') IS NULL",
+	"SELECT id, SPIN.fx(1, a DIV (id - 2)), SPINASYNC.fx(2, `n[1].v`) FROM t",
+	"SELECT * FROM t x PARALLEL JOIN u y ON x.id = y.id AND SETVAR('k', 1)",
+	"SELECT id, (SELECT SETVAR('k', v) FROM n) AS sub FROM t",
 }
 
 // the cases named in the statement
@@ -91,6 +96,13 @@ var c10Named = []struct {
 	{"SELECT `n[(2:1)]` AS c FROM t", false},
 	{"SELECT `n[(-1:9)]` AS c FROM t", false},
 	{"SELECT `n::::[0]` AS c FROM t", false},
+	{"SELECT id, SETVAR('k', id) FROM t", false},
+	{"SELECT id, GETVAR('k') AS g, SETVAR('k', 1), GETVAR('k') AS h FROM t", false},
+	{"SELECT * FROM t x PARALLEL JOIN u y ON x.id = y.id AND SETVAR('k', 1)", false},
+	{"SELECT * FROM t x PARALLEL LEFT JOIN u y ON x.id < y.id AND SETVAR('k', 1)", false},
+	{"SELECT id, SPIN.fx(1, a DIV (id - 2)) FROM t", false},
+	{"SELECT id, SPINASYNC.fx(1, `n[1].v`) FROM t", false},
+	{"SELECT id, ASYNC.fx(1, a DIV (id - 2)) AS y FROM t", false},
 	{"SELECT DISTINCT (SELECT v FROM n) AS s, * FROM t", false},
 	{"SELECT DISTINCT *, (SELECT ip FROM `<-meta`) AS m FROM t", false},
 	{"SELECT DISTINCT id, (SELECT v, (SELECT ip FROM `<-<-meta`) AS ip FROM n) AS s, * FROM t", false},
@@ -253,7 +265,7 @@ func genC10(t *rapid.T) *Bundle {
 		if op.Wrapped {
 			root = "root."
 		}
-		fq := genFaultQueryOpt(t, root, true)
+		fq := genFaultQueryRisky(t, root, true, true)
 		doc = faultDoc(t)
 		op.Query = fq.Query
 		all := append(append([]int{}, fq.Sites...), fq.Async...)
@@ -279,7 +291,7 @@ func genC10(t *rapid.T) *Bundle {
 		op.NoHandlers = rapid.Bool().Draw(t, "no_handlers")
 	case "pjoin":
 		jt := rapid.SampledFrom([]string{"PARALLEL JOIN", "PARALLEL LEFT JOIN", "PARALLEL RIGHT JOIN", "PARALLEL STRAIGHT_JOIN", "PARALLEL HASH_JOIN", "PARALLEL LEFT HASH_JOIN", "JOIN", "LEFT JOIN"}).Draw(t, "jt")
-		on := rapid.SampledFrom([]string{"x.f AND y.g", "x.id = y.id AND x.f", "x.a + 1 > y.id", "x.id < y.id OR x.f", "x.s = y.b", "x.id = y.id", "x.o = y.id", "x.n = y.id", "x.id >= y.id AND fid(1, x.a) > 0", "x.f"}).Draw(t, "on")
+		on := rapid.SampledFrom([]string{"x.f AND y.g", "x.id = y.id AND x.f", "x.a + 1 > y.id", "x.id < y.id OR x.f", "x.s = y.b", "x.id = y.id", "x.o = y.id", "x.n = y.id", "x.id >= y.id AND fid(1, x.a) > 0", "x.f", "x.id = y.id AND SETVAR('k', 1)", "x.id < y.id AND SETVAR('k', x.id)"}).Draw(t, "on")
 		op.Query = fmt.Sprintf("SELECT * FROM t x %s u y ON %s", jt, on)
 		// corrupt one row so that ON hits a type error on that row only
 		rows := doc["t"].([]any)
@@ -372,6 +384,8 @@ func genC10(t *rapid.T) *Bundle {
 		stubs.Lat = drawLatencies(t, []int{1, 2}, 4)
 	}
 	exp.Query = op.Query
+	// calling Exec again on the same Query is ordinary API use
+	op.ExecTwice = rapid.IntRange(0, 2).Draw(t, "exec_twice") == 0
 	c := oneClientCase("C10", sim, doc, op, c10FollowUp(t))
 	c.Stubs = stubs
 	c.Sim.StepBudget = 2000000
@@ -440,7 +454,7 @@ func corpusC10() []*Bundle {
 		for _, wrapped := range []bool{false, true} {
 			q := nc.q
 			c := oneClientCase("C10", casefmt.SimConfig{Strategy: "walk", Seed: 2, WalkP: 0.3, MapPolicy: "sorted", StepBudget: 2000000}, doc,
-				casefmt.Op{Doc: 0, Vars: -1, Query: q, Idiomatic: nc.idiomatic, Wrapped: wrapped}, c10FollowUp(nil))
+				casefmt.Op{Doc: 0, Vars: -1, Query: q, Idiomatic: nc.idiomatic, Wrapped: wrapped, ExecTwice: true}, c10FollowUp(nil))
 			out = append(out, &Bundle{Prop: "C10", Kind: "named", Case: c, Expect: mustJSON(c10Expect{Kind: "named", Query: q}), Tags: []string{"corpus", "kind:named"}})
 		}
 	}
